@@ -14,6 +14,10 @@ from rdflib.plugins.stores.auditable import AuditableStore  # noqa: E402
 from rdflib.plugins.stores.memory import Memory, SimpleMemory  # noqa: E402
 
 DEFAULT = URIRef("urn:x-verif:cg-default")
+# how an operation reaches the wrapper: through a Graph over it, through the ConjunctiveGraph over it with the graph named by
+# its identifier, by the ConjunctiveGraph's own Graph object, by a Graph object that belongs to the INNER store, or by a Graph
+# object of the OTHER wrapper (the wrapper re-wraps every context it is given; the operation belongs to the wrapper called)
+VIAS = ["graph", "cg", "cgobj", "graph", "cg", "cgobj", "cginner", "cgother"]
 
 
 def c_triple(t):
@@ -76,9 +80,9 @@ class C18(Suite):
             t = rng.choice(pools[w])
             c = rng.choice(cids)
             if r < 0.36:
-                ops.append(["add", w, t, c, rng.choice(["graph", "cg", "cgobj"])])
+                ops.append(["add", w, t, c, rng.choice(VIAS)])
             elif r < 0.56:
-                ops.append(["rem", w, t, c, rng.choice(["graph", "cg", "cgobj"])])
+                ops.append(["rem", w, t, c, rng.choice(VIAS)])
             elif r < 0.70:
                 p = [x if rng.random() < 0.5 else None for x in t]
                 if two and rng.random() < 0.8:
@@ -135,6 +139,10 @@ class C18(Suite):
                         Graph(auds[w], identifier=name).add(t)
                     elif op[4] == "cgobj":
                         cgs[w].add(t + (cgs[w].get_context(name),))
+                    elif op[4] == "cginner":
+                        cgs[w].add(t + (Graph(inner, identifier=name),))
+                    elif op[4] == "cgother":
+                        cgs[w].add(t + (cgs[1 - w].get_context(name),))
                     else:
                         cgs[w].add(t + (name,))
                 elif kind == "rem":
@@ -147,6 +155,10 @@ class C18(Suite):
                             Graph(auds[w], identifier=name).remove(p)
                         elif op[4] == "cgobj":
                             cgs[w].remove(p + (cgs[w].get_context(name),))
+                        elif op[4] == "cginner":
+                            cgs[w].remove(p + (Graph(inner, identifier=name),))
+                        elif op[4] == "cgother":
+                            cgs[w].remove(p + (cgs[1 - w].get_context(name),))
                         else:
                             cgs[w].remove(p + (name,))
                 elif kind == "addn":
@@ -195,6 +207,8 @@ class C18(Suite):
             if k == "rem":
                 k = "rem_noctx" if o[3] is None else ("rem_bound" if None not in o[2] else "rem_wild")
             f["op_" + k] = f.get("op_" + k, 0) + 1
+            if o[0] in ("add", "rem"):
+                f["via_" + str(o[4])] = f.get("via_" + str(o[4]), 0) + 1
         return f
 
     def shrink(self, case):
